@@ -17,7 +17,9 @@ Not decided: numeric value round-trip of decimals digit by digit, pattern escapi
 """
 import ast
 
+from ..cfg import CFG
 from ..core import norm
+from ..facts import must_facts
 from ..kinds import Engine
 from ..lexmodel import LexModel, LexShapeError, SimUnsupported, simulate
 from .common import known
@@ -75,7 +77,68 @@ def sorted_views(ctx, model):
                   site=f"{cname}.__repr__: elements from self.{view}()")
 
 
+def host_kind_dispatch(ctx, model):
+    """json.loads hands back host bools; `isinstance(x, int)` is also true for them.  Where host data is turned into
+    language values, an int test that a bool can pass (isinstance before / without the bool case) makes a ValueInt whose
+    payload renders `True` / `False` - text that is no numeral and does not read back."""
+    from .common import resolve_static_call
+    n = 0
+    for f in model.all_funcs():
+        for c in ast.walk(f.node):
+            if not (isinstance(c, ast.Call) and norm(c.func) in ("json.loads", "json.load")):
+                continue
+            conv = None
+            for x in ast.walk(f.node):
+                if isinstance(x, ast.Call) and x is not c and x.args and (
+                        x.args[0] is c or (isinstance(x.args[0], ast.Name) and any(
+                            isinstance(a, ast.Assign) and a.value is c and norm(a.targets[0]) == x.args[0].id
+                            for a in ast.walk(f.node)))):
+                    conv = resolve_static_call(model, f, x)
+            if conv is None:
+                continue
+            p0 = conv.params[1] if conv.cls is not None else conv.params[0]
+            g = CFG(conv.node, implicit_exc=False)
+            facts = must_facts(g)
+            for node in g.nodes:
+                a = node.ast if node.kind != "for" else None
+                if a is None:
+                    continue
+                for x in ast.walk(a):
+                    if isinstance(x, ast.Call) and norm(x.func) == "ValueInt" and x.args and norm(x.args[0]) == p0:
+                        have = facts.get(node.id, frozenset())
+                        exact = (f"type({p0}) == int", True) in have
+                        no_bool = (f"isinstance({p0}, bool)", False) in have or (f"type({p0}) == bool", False) in have
+                        n += 1
+                        ctx.check("C08.intpayload", conv, x, exact or no_bool,
+                                  f"{conv.qual} makes a ValueInt of host data `{p0}` under a test a host bool passes as "
+                                  f"well (isinstance(.., int) without excluding bool): JSON true / false become ints "
+                                  f"that render `True` / `False`",
+                                  site=f"{conv.qual}: ValueInt({p0}) only for exact host ints")
+    ctx.ob("C08.intpayload", f"{n} conversion(s) of deserialised host data into ValueInt examined", True)
+
+
+def total_order_of_keys(ctx, model):
+    """the sorted views that make renderings canonical sort with the values' own `<`; for values whose payload is a host
+    set / dict that must not be the host comparison of the payloads (inclusion: a partial order)"""
+    for cname in ("ValueSet", "ValueMap", "ValueObject"):
+        lt = model.classes[cname].methods.get("__lt__") if cname in model.classes else None
+        if lt is None:
+            continue
+        other = lt.params[1] if len(lt.params) == 2 else "other"
+        bad_ = [n for n in ast.walk(lt.node) if isinstance(n, ast.Compare) and len(n.ops) == 1
+                and isinstance(n.ops[0], (ast.Lt, ast.Gt, ast.LtE, ast.GtE))
+                and norm(n.left) in ("self.value", f"{other}.value")
+                and norm(n.comparators[0]) in ("self.value", f"{other}.value")]
+        ctx.check("C08.sorted", lt, bad_[0] if bad_ else None, not bad_,
+                  f"{cname}.__lt__ compares the host {'set' if cname == 'ValueSet' else 'dict'} payloads: incomparable "
+                  f"values keep their insertion order in the sorted views, so equal collections built in different "
+                  f"orders render differently", expr=f"{cname}.__lt__ host payload order",
+                  site=f"{cname}.__lt__: a total order (no host `<` between set / dict payloads)")
+
+
 def intpayload(ctx, model):
+    total_order_of_keys(ctx, model)
+    host_kind_dispatch(ctx, model)
     engine = Engine(model)
     n = 0
     for f in model.all_funcs():
